@@ -293,6 +293,10 @@ pub fn run(ctx: &Ctx) -> Report {
         if c.ctor < 2 && c.safety == 1 {
             return;
         }
+        // quick tier: the three special limit variants on every second (constructor, frames, posture) combination
+        if !thorough && c.limits >= 2 && (ix[0] + ix[1] + ix[5]) % 2 == 1 {
+            return;
+        }
         let (fails, sig) = eval(&c);
         r.states += 1;
         r.transitions += 12;
